@@ -8,6 +8,8 @@ REQUIRED = [
     "DaeVerif.C10.Props.tracker_indexes_agree",
     "DaeVerif.C10.Props.batches_minimal",
     "DaeVerif.C10.Props.resync_sends_nothing",
+    "DaeVerif.C10.Props.listed_iff",
+    "DaeVerif.C10.Props.unspecified_lists_nothing",
     "DaeVerif.C10.Props.table_mirrors_cache_partial",
     "DaeVerif.C10.Props.table_no_orphan_partial",
     "DaeVerif.C10.Props.table_eq_spec_partial",
@@ -120,9 +122,11 @@ def run(ctx):
                                    {"stream": name, "line": i + 1, "op": op, "impl": im, "history": hist})
     handle_stale_finding(ctx)
     handle_rollback_probe(ctx)
+    handle_race_probe(ctx)
 
     stats = json.load(open(os.path.join(ctx.out, "c10.stats.json")))
-    ctx.samples = stats["samples"][:6] + read_lines(streams["c10c"][0])[1:5]
+    cops = read_lines(streams["c10c"][0])
+    ctx.samples = stats["samples"][:4] + [o for o in cops if o.startswith("put ")][:3] + [o for o in cops if o.startswith(("fam ", "jan ", "hot ", "look "))][:5]
     ctx.cov["input_distribution"] = stats["counters"]
     ctx.assumptions = [
         "histories are generated (seeded): 1-6 owners / cache keys, address pool 1-8 (forces overlap), 1-60 ops",
@@ -188,4 +192,30 @@ def handle_rollback_probe(ctx):
         ctx.report(what, {"probe": line}, key=key)
     else:
         ctx.say(f"FINDING-CANDIDATE property=C10 key={key} (outside the property's history alphabet) {what[:600]}")
+        ctx.cov.setdefault("finding_candidates_outside_alphabet", []).append({"key": key, "what": what})
+
+
+def handle_race_probe(ctx):
+    """Outside the property's alphabet (a concurrency schedule): a complete operation of another goroutine runs
+    between the cache-map mutation and the tracker sync of an operation on the same key."""
+    path = os.path.join(ctx.out, "c10.race.txt")
+    if not os.path.exists(path):
+        ctx.say("HARNESS-FAILED race probe produced no output")
+        return
+    line = open(path).read().strip()
+    ctx.cov["race_probe"] = line
+    f = fields(line)
+    if not line.startswith("race "):
+        ctx.report("race probe did not run as designed: " + line[:300], {"probe": line})
+        return
+    if f.get("A_mirror") == "1" and f.get("B_mirror") == "1":
+        return
+    key = "c10-nonatomic-store-and-sync"
+    what = ("the DNS cache map mutation and the domain-routing tracker sync of one cache operation are not atomic together: with a "
+            "removal interleaved inside a replacement (A) the table keeps an address no cached entry lists; with an insert interleaved "
+            "inside a removal (B) a cached entry's address is missing from the table: " + line)
+    if any(k.get("kind") == "open" and k.get("key") == key for k in ctx.known):
+        ctx.report(what, {"probe": line}, key=key)
+    else:
+        ctx.say(f"FINDING-CANDIDATE property=C10 key={key} (concurrency schedule, outside the property's sequential histories) {what[:600]}")
         ctx.cov.setdefault("finding_candidates_outside_alphabet", []).append({"key": key, "what": what})
